@@ -89,6 +89,7 @@ type Lemma struct {
 	Requires  []*Ex
 	Ensures   []*Ex
 	Induction *Ex
+	Triggers  []*Ex
 	Src       string
 	File      string
 	Line      int
@@ -273,7 +274,17 @@ func (cs *Contracts) parseLines(lines []string, lineNos []int, file, pkgPath str
 			rest := m[3]
 			props, rest := takeProps(rest)
 			lm := &Lemma{Name: m[1], Params: ps, Props: props, Src: l, File: file, Line: ln, PkgPath: pkgPath}
-			for _, part := range splitKeyword(rest, "requires", "ensures", "induction") {
+			for _, part := range splitKeyword(rest, "requires", "ensures", "induction", "trigger") {
+				if part[0] == "trigger" {
+					for _, tsrc := range splitTop(part[1], ',') {
+						te, err := parseExpr(tsrc)
+						if err != nil {
+							return errf("%v", err)
+						}
+						lm.Triggers = append(lm.Triggers, te)
+					}
+					continue
+				}
 				e, err := parseExpr(part[1])
 				if err != nil {
 					return errf("%v", err)
